@@ -271,7 +271,7 @@ def _alias_generate_mesh():
     return info
 
 
-def _bad_multisection_after_valid(field):
+def _bad_multisection_after_valid(field, too_long=False):
     """The same malformed multi-section dict, but offered after a well-formed one has been processed in this process."""
     from openaerostruct.geometry.geometry_group import build_sections
 
@@ -283,7 +283,7 @@ def _bad_multisection_after_valid(field):
         "k_lam": 0.05, "c_max_t": 0.303, "with_viscous": False, "with_wave": False, "groundplane": False,
     }
     build_sections(good)
-    return _bad_multisection(field)
+    return _bad_multisection(field, too_long)
 
 
 def _bad_even_num_y_crm():
@@ -358,7 +358,7 @@ def _bad_one_wingbox_thickness(which, aerostruct):
     return _stage_runner(_struct_problem(mod, aerostruct=aerostruct))
 
 
-def _bad_multisection(field):
+def _bad_multisection(field, too_long=False):
     from openaerostruct.geometry.geometry_group import build_sections
 
     def build():
@@ -371,12 +371,39 @@ def _bad_multisection(field):
         }
         if field == "meshes":
             surface["meshes"] = [np.zeros((2, 3, 3))]
+        elif too_long:
+            surface[field] = list(surface[field]) + [list(surface[field])[-1]]
         else:
             surface[field] = list(surface[field])[:1]
-        build_sections(surface)
+        sections = build_sections(surface)
+        if too_long:
+            # an over-long list does not crash anything downstream by itself: carry on as a user would, so that a
+            # silently accepted dict ends in numbers
+            return _multisection_problem(surface, sections)
         return None
 
     return _stage_runner(build)
+
+
+def _multisection_problem(surface, section_surfaces):
+    import openmdao.api as om
+    from openaerostruct.geometry.geometry_group import MultiSecGeometry
+    from openaerostruct.geometry.geometry_unification import unify_mesh
+    from openaerostruct.aerodynamics.aero_groups import AeroPoint
+
+    prob = om.Problem(reports=False)
+    ivc = om.IndepVarComp()
+    for n, v, u in (("v", 1.0, "m/s"), ("alpha", 5.0, "deg"), ("Mach_number", 0.3, None), ("re", 1e5, "1/m"),
+                    ("rho", 0.38, "kg/m**3"), ("cg", np.zeros(3), "m")):
+        ivc.add_output(n, val=v, units=u)
+    prob.model.add_subsystem("prob_vars", ivc, promotes=["*"])
+    surface["mesh"] = unify_mesh(section_surfaces)
+    prob.model.add_subsystem("surface", MultiSecGeometry(surface=surface))
+    prob.model.add_subsystem("aero_point_0", AeroPoint(surfaces=[surface]), promotes_inputs=["v", "alpha", "Mach_number", "re", "rho", "cg"])
+    uni = "surface.surface_unification.surface_uni_mesh"
+    prob.model.connect(uni, "aero_point_0.surface.def_mesh")
+    prob.model.connect(uni, "aero_point_0.aero_states.surface_def_mesh")
+    return prob
 
 
 def _bad_full_mesh(kind):
@@ -490,6 +517,11 @@ ERROR_TABLE = {
     "multisection_span_length_after_valid_build": (lambda: _bad_multisection_after_valid("span"), "ValueError", None),
     "multisection_sweep_length_after_valid_build": (lambda: _bad_multisection_after_valid("sweep"), "ValueError", None),
     "multisection_sec_name_length_after_valid_build": (lambda: _bad_multisection_after_valid("sec_name"), "ValueError", None),
+    "multisection_ny_too_long": (lambda: _bad_multisection("ny", True), "ValueError", None),
+    "multisection_taper_too_long": (lambda: _bad_multisection("taper", True), "ValueError", None),
+    "multisection_span_too_long_after_valid_build": (lambda: _bad_multisection_after_valid("span", True), "ValueError", None),
+    "multisection_sweep_too_long_after_valid_build": (lambda: _bad_multisection_after_valid("sweep", True), "ValueError", None),
+    "multisection_taper_too_long_after_valid_build": (lambda: _bad_multisection_after_valid("taper", True), "ValueError", None),
 }
 
 
@@ -542,9 +574,28 @@ def _gen(seed, tier, opts):
             ten["twin_of"] = twin_of
             tenants.append(ten)
             continue
+        relative = None
         if tenants and share_level and rng.random() < 0.6:
             # same zoo entry and mesh size as an earlier tenant, so that user objects are really shared
             spec = dict(rng.choice(tenants)["spec"])
+        elif tenants and rng.random() < 0.35:
+            # a *relative* of an earlier tenant: the same component classes, surface names and mesh size, but another
+            # variant of the zoo entry or another mesh spacing / surface option - what state kept per class, per surface
+            # name or per object address gets confused by
+            relative = rng.choice([t_ for t_ in tenants if t_.get("twin_of") is None])
+            base = relative["spec"]
+            same_zoo = [v for v in TENANT_VARIANTS if v["zoo"] == base["zoo"]]
+            spec = dict(rng.choice(same_zoo))
+            for k_ in ("ny", "nx"):
+                if k_ in base:
+                    spec[k_] = base[k_]
+            r_ = rng.random()
+            if r_ < 0.5 and base["zoo"] in ("Z1", "Z2", "Z3", "Z4", "Z6", "Z8", "Z9", "Z11", "Z12", "Z15"):
+                others = [m_ for m_ in zoo.MESH_OPT_CHOICES if m_ != base.get("mesh_opts")]
+                spec["mesh_opts"] = dict(rng.choice(others))
+            elif r_ < 0.8 and base["zoo"] in ("Z1", "Z2", "Z3", "Z4", "Z8", "Z9", "Z10", "Z11", "Z12", "Z13", "Z15"):
+                others = [m_ for m_ in zoo.SURF_OPT_CHOICES if m_ != base.get("surf_opts")]
+                spec["surf_opts"] = dict(rng.choice(others))
         else:
             spec = dict(rng.choice(TENANT_VARIANTS))
             if spec["zoo"] in ("Z10", "Z7"):
@@ -600,8 +651,10 @@ def _gen(seed, tier, opts):
             if rng.random() < 0.4:
                 # build the same tenant again from new objects (ids of collected objects may be reused) and repeat
                 ops += [{"op": "rebuild"}, {"op": "final_setup"}, {"op": "set", "k": 0}, {"op": "run"}, {"op": "totals"}, {"op": "drop"}]
-        tenants.append({"id": t, "spec": spec, "points": points, "ops": ops, "twin_of": None,
-                        "late": bool(t > 0 and rng.random() < 0.35)})
+        late = bool(t > 0 and rng.random() < (0.6 if relative is not None else 0.3))
+        if late and relative is not None and not any(o["op"] == "drop" for o in relative["ops"]):
+            relative["ops"].append({"op": "drop"})  # the relative dies (and is collected) before the late one is born
+        tenants.append({"id": t, "spec": spec, "points": points, "ops": ops, "twin_of": None, "late": late})
     # malformed set-ups as short-lived tenants
     bad = []
     names = sorted(ERROR_TABLE)
